@@ -194,15 +194,12 @@ theorem exists_first (P : Nat → Prop) [DecidablePred P] : ∀ m, P m → ∃ d
       exact ⟨d, by omega, hPd, hmin⟩
     · exact ⟨m, Nat.le_refl _, hm, fun t ht hPt => h ⟨t, ht, hPt⟩⟩
 
-/-- **`get_authentication_path_node_indices(start, peak, node_count)`, complete description** for every start node
-    `1 ≤ nodeIdx l j < 2^64`, every `peak` and every `node_count ≤ 2^64 − 2`: the loop terminates (within the fuel
-    of the model, at most `63 − l` rounds); with `d` the first level at which the ancestor exceeds `node_count` or
-    equals `peak`, the result is `Some(siblings of the first d nodes of the path)` if that ancestor is `peak`, and
-    `None` otherwise -/
-theorem get_auth_path_spec (l j peak nc : Nat) (hlt : nodeIdx l j < 2 ^ 64) (hnc : nc < 2 ^ 64 - 1) :
+/-- the loop always ends (for `node_count ≤ 2^64 − 2`), at the first level `d` at which the ancestor exceeds
+    `node_count` or equals `peak`; any fuel above `63 − l` suffices -/
+theorem authPathLoop_total (l j peak nc : Nat) (hlt : nodeIdx l j < 2 ^ 64) (hnc : nc < 2 ^ 64 - 1) :
     ∃ d, l + d ≤ 63 ∧ (nc < anc l j d ∨ anc l j d = peak) ∧ (∀ t, t < d → anc l j t ≤ nc ∧ anc l j t ≠ peak) ∧
-      get_authentication_path_node_indices (nodeIdx l j) peak nc
-        = some (if anc l j d = peak then some (sibsUp l j d) else none) := by
+      ∀ (fuel : Nat) (acc : List Nat), 63 - l < fuel →
+        authPathLoop peak nc fuel (nodeIdx l j) acc = some (anc l j d, acc ++ sibsUp l j d) := by
   obtain ⟨hl, _⟩ := coords_of_lt l j hlt
   have htop := anc_top l j hlt
   obtain ⟨d, hd, hPd, hmin⟩ := exists_first (fun t => nc < anc l j t ∨ anc l j t = peak) (63 - l)
@@ -214,11 +211,24 @@ theorem get_auth_path_spec (l j peak nc : Nat) (hlt : nodeIdx l j < 2 ^ 64) (hnc
     · by_contra hc; exact this (Or.inl (by omega))
     · intro hc; exact this (Or.inr hc)
   refine ⟨d, by omega, hPd, hgo, ?_⟩
+  intro fuel acc hf
   have hle := anc_le_top l j d hlt (by omega)
-  have hloop := authPathLoop_climb peak nc d l j [] (descentFuel + 1) (by unfold descentFuel; omega) (by omega) hgo
+  exact authPathLoop_climb peak nc d l j acc fuel (by omega) (by omega) hgo
     (by rintro ⟨h1, h2⟩; rcases hPd with h | h <;> omega)
+
+/-- **`get_authentication_path_node_indices(start, peak, node_count)`, complete description** for every start node
+    `1 ≤ nodeIdx l j < 2^64`, every `peak` and every `node_count ≤ 2^64 − 2`: the loop terminates (within the fuel
+    of the model, at most `63 − l` rounds); with `d` the first level at which the ancestor exceeds `node_count` or
+    equals `peak`, the result is `Some(siblings of the first d nodes of the path)` if that ancestor is `peak`, and
+    `None` otherwise -/
+theorem get_auth_path_spec (l j peak nc : Nat) (hlt : nodeIdx l j < 2 ^ 64) (hnc : nc < 2 ^ 64 - 1) :
+    ∃ d, l + d ≤ 63 ∧ (nc < anc l j d ∨ anc l j d = peak) ∧ (∀ t, t < d → anc l j t ≤ nc ∧ anc l j t ≠ peak) ∧
+      get_authentication_path_node_indices (nodeIdx l j) peak nc
+        = some (if anc l j d = peak then some (sibsUp l j d) else none) := by
+  obtain ⟨d, hd, hPd, hgo, hloop⟩ := authPathLoop_total l j peak nc hlt hnc
+  refine ⟨d, hd, hPd, hgo, ?_⟩
   unfold get_authentication_path_node_indices
-  rw [hloop]
+  rw [hloop (descentFuel + 1) [] (by unfold descentFuel; omega)]
   simp only [List.nil_append]
   by_cases hp : anc l j d = peak
   · rw [if_pos hp, if_pos hp]
@@ -286,5 +296,39 @@ theorem get_auth_path_none_iff (l j peak nc : Nat) (hlt : nodeIdx l j < 2 ^ 64) 
       have := (hgo t ht).1
       omega
     · rw [if_neg hp]
+
+/-! ## `start_node_index = 0` (not a node index) -/
+
+theorem nodeIdx_zero_zero : nodeIdx 0 0 = 1 := by
+  have := nodeIdx_eq 0 0
+  simp [popCount_zero] at this
+  omega
+
+theorem siblingAndParent_zero : siblingAndParent 0 = some (false, 0, 1) := by decide +kernel
+
+/-- **`start_node_index = 0`** with the arithmetic of a release build (the arithmetic of the model):
+    `leftmost_ancestor(0)` wraps to `(0, 2^32 − 1)`, so "node 0" is taken for a left child of height `2^32 − 1`; its
+    "sibling" `0 + (1 << 0) − 1 = 0` is pushed and the climb continues at its "parent" `0 + (1 << 0) = 1`.  Hence
+    the result is `Some []` for `peak = 0` and otherwise that for start `1` with a `0` in front.
+    (A debug build panics in `leftmost_ancestor`: `64 − 64 − 1` underflows.) -/
+theorem get_auth_path_start_zero (peak nc : Nat) (hnc : nc < 2 ^ 64 - 1) :
+    get_authentication_path_node_indices 0 peak nc =
+      if peak = 0 then some (some [])
+      else (get_authentication_path_node_indices 1 peak nc).map (fun res => res.map (fun p => 0 :: p)) := by
+  unfold get_authentication_path_node_indices
+  rw [authPathLoop_succ]
+  by_cases hp : peak = 0
+  · subst hp
+    simp
+  · have h0 : (0 ≤ nc ∧ 0 ≠ peak) := ⟨Nat.zero_le _, fun h => hp h.symm⟩
+    rw [if_pos h0, if_neg hp, siblingAndParent_zero]
+    simp only [List.nil_append]
+    obtain ⟨d, _, _, _, hloop⟩ := authPathLoop_total 0 0 peak nc (by rw [nodeIdx_zero_zero]; omega) hnc
+    rw [nodeIdx_zero_zero] at hloop
+    rw [hloop descentFuel [0] (by unfold descentFuel; omega),
+      hloop (descentFuel + 1) [] (by unfold descentFuel; omega)]
+    by_cases hq : anc 0 0 d = peak
+    · simp [hq]
+    · simp [hq]
 
 end TF.MmrE
